@@ -408,3 +408,48 @@ def jsonable(o):
     if isinstance(o, dict):
         return {str(k): jsonable(v) for k, v in o.items()}
     return repr(o)
+
+
+# ---------------------------------------------------------------------------------------------------------
+# Public snapshot: what "nothing changed" means
+# ---------------------------------------------------------------------------------------------------------
+
+def public_snapshot(model, agents=(), names=None, cells=False):
+    """The state of a model as the documented attributes show it (Model.timestep / is_running, SystemManager.systems,
+    execution_queue, component_pools, Environment.agents, Agent.id / tag / components, position coordinates).
+
+    "A rejected operation changes nothing" and "a query does not alter the environment" are judged on THIS, not on
+    the full-field canon used for state hashing: a cache or a statistic a maintainer adds is not a change a user
+    can rely on or observe, while everything below is documented as part of the objects.  (Consequences of hidden
+    state still surface, because the state hash keeps such states apart and the search explores them.)
+    ``agents`` are extra agent objects that may not be resident (pool objects); ``names`` maps id(obj) -> label."""
+    names = names or {}
+
+    def nm(o):
+        return names.get(id(o), f'{type(o).__name__}:{getattr(o, "id", "")}')
+
+    def agent(a):
+        comps = []
+        for t, c in a.components.items():
+            entry = [t.__name__, nm(c)]
+            if hasattr(c, 'x') and hasattr(c, 'y') and hasattr(c, 'z'):
+                entry.append((repr(c.x), repr(c.y), repr(c.z)))
+            comps.append(tuple(entry))
+        return (nm(a), a.id, repr(a.tag), tuple(comps))
+
+    sm = model.systems
+    env = model.environment
+    out = [('timestep', sm.timestep), ('running', model.is_running()),
+           ('systems', tuple((k, nm(v)) for k, v in sm.systems.items())),
+           ('queue', tuple(nm(s) for s in sm.execution_queue)),
+           ('sched', tuple((nm(s), repr(s.priority), s.frequency, s.start, s.end) for s in sm.systems.values())),
+           ('pools', tuple((t.__name__, tuple(nm(c) for c in cs)) for t, cs in sm.component_pools.items())),
+           ('env', type(env).__name__, tuple(agent(a) for a in env.agents.values()), agent(env)),
+           ('others', tuple(agent(a) for a in agents))]
+    for attr in ('width', 'height', 'depth', 'wrap_env'):
+        if hasattr(env, attr):
+            out.append((attr, repr(getattr(env, attr))))
+    if cells and hasattr(env, 'cells'):
+        df = env.cells
+        out.append(('cells', tuple(df.columns), tuple(tuple(repr(v) for v in df[c].tolist()) for c in df.columns)))
+    return tuple(out)
